@@ -525,3 +525,94 @@ HARNESSES.append(
       functions=["FixedConcurrency.*", "DynamicConcurrency.*", "WeightedConcurrency.*"],
       bounds=lambda tier: {"limit": "symbolic 1..4", "in use": "symbolic 0..5 (Dynamic: may exceed the limit)", "weight": "symbolic 1..3 (Weighted)", "new limit": "symbolic 0..6, clamped to [1,4]"},
       assumptions=["0 <= in use <= limit for Fixed and Weighted models (set directly on the object)"]))
+
+
+# ------------------------------------------------------------------ Bulkhead in the engine
+def bulkhead(sym, tier):
+    """4 requests with symbolic arrival instants through a real Bulkhead (max_concurrent 1-2, wait queue
+    0-2, optional 2 ns wait timeout) into a worker that holds each for 3 ns: never more than
+    max_concurrent in service, every request ends as exactly one of completed / rejected / timed out,
+    waiting requests are admitted in arrival order, no permit is free while somebody waits."""
+    from happysimulator.components.resilience.bulkhead import Bulkhead
+    from happysimulator.core.entity import Entity
+    from happysimulator.core.simulation import Simulation
+    from harness.common import Monitor, SpinDetected, mk_event
+    r = Result()
+    k = 1 + sym.choice("max_concurrent_minus_1", 2)
+    q = sym.choice("max_wait_queue", 3)
+    timeout = [None, 2e-9][sym.choice("wait_timeout", 2)]
+    m = 4
+    started, finished = [], []
+    in_service = [0]
+    problems = []
+
+    class Worker(Entity):
+        def handle_event(self, event):
+            lbl = event.context["metadata"]["label"]
+            in_service[0] += 1
+            if in_service[0] > k:
+                problems.append(("more_in_service_than_max_concurrent", lbl, in_service[0]))
+            started.append((lbl, self.now.nanoseconds))
+            yield 3e-9
+            in_service[0] -= 1
+            finished.append((lbl, self.now.nanoseconds))
+
+    wk = Worker("worker")
+    bh = Bulkhead("bh", target=wk, max_concurrent=k, max_wait_queue=q, max_wait_time=timeout)
+    sim = Simulation(entities=[bh, wk])
+    mon = Monitor(sim, cap=60)
+    ts = [sym.int(f"arrive{i}", 0, 4) for i in range(m)]
+
+    def on_advance(t):
+        if bh.queue_depth > 0 and bh.active_count < k:
+            problems.append(("waiting_while_a_permit_is_free", t.nanoseconds, bh.queue_depth, bh.active_count))
+
+    def on_event(e):
+        if bh.active_count > k:
+            problems.append(("active_count_above_max_concurrent", bh.active_count))
+        if bh.queue_depth > q:
+            problems.append(("wait_queue_above_its_limit", bh.queue_depth))
+
+    sim.control.on_time_advance(on_advance)
+    sim.control.on_event(on_event)
+    sim.schedule([mk_event(ts[i], f"req{i}", bh) for i in range(m)])
+    try:
+        sim.run()
+    except SpinDetected:
+        pass
+    mon.judge(r, "bulkhead")
+    for p_ in problems[:1]:
+        r.bad(p_[0], {"detail": p_[1:], "arrivals_ns": ts, "max_concurrent": k, "queue": q, "timeout": timeout})
+    st = bh.stats
+    done = [l for (l, t) in finished]
+    if len(set(done)) != len(done):
+        r.bad("request_served_at_most_once", done)
+    if not mon.spun:
+        if len(done) + st.rejected_requests + st.timed_out_requests != m:
+            r.bad("every_request_completed_rejected_or_timed_out", {"completed": done, "rejected": st.rejected_requests, "timed_out": st.timed_out_requests,
+                                                                     "arrivals_ns": ts, "max_concurrent": k, "queue": q, "timeout": timeout})
+        if bh.active_count != 0 or bh.queue_depth != 0 or in_service[0] != 0:
+            r.bad("bulkhead_drains_at_quiescence", bh.active_count, bh.queue_depth)
+    # admission order: among requests that were served, start order follows (arrival instant, index)
+    order = [int(l[3:]) for (l, t) in started]
+    for a in range(len(order)):
+        for b in range(a + 1, len(order)):
+            if ts[order[a]] > ts[order[b]]:
+                r.bad("requests_admitted_in_arrival_order", {"started": started, "arrivals_ns": ts})
+    if st.rejected_requests:
+        r.wit.add("rejected")
+    if st.queued_requests:
+        r.wit.add("queued")
+    if st.timed_out_requests:
+        r.wit.add("timed_out")
+    r.obs = {"started": started, "rejected": st.rejected_requests, "timed_out": st.timed_out_requests}
+    return r
+
+
+HARNESSES.append(
+    H(name="c09_bulkhead", fn=bulkhead, shape="S", budget=lambda tier: 900.0 if tier == "quick" else 3000.0,
+      cubes=lambda tier: [{"max_concurrent_minus_1": a, "max_wait_queue": b, "wait_timeout": c} for a in range(2) for b in range(3) for c in range(2)],
+      require=lambda tier: ["rejected", "queued", "timed_out"], classify=sync_classify,
+      functions=["Bulkhead.handle_event/_forward_request/_enqueue_request/_handle_response/_handle_timeout/_try_process_queued"],
+      bounds=lambda tier: {"requests": 4, "arrivals": "symbolic ns [0,4]", "service ns": 3, "max_concurrent": [1, 2], "wait queue": [0, 1, 2], "wait timeout": [None, "2 ns"]},
+      outside=["connection pool", "thread pool"]))
